@@ -60,6 +60,7 @@ type lfRig struct {
 	quic          bool           // the process runs with -quic: every server also opens a UDP socket on its port
 	busyUDP       net.PacketConn // a UDP port somebody else holds while the TCP port of the same number is free
 	busyUDPPort   int
+	udpBefore     []string // the process's UDP sockets before the current attempt
 	seq           int
 	inst          *casket.Instance
 	running       *lfCfg
@@ -91,7 +92,7 @@ func init() {
 
 // seeds below lfDirected are the systematic enumeration
 // (running or not) x (3 ways of loading) x (every failure kind)
-const lfDirected = 6 * 33
+const lfDirected = 6 * 34
 
 var lfFailKinds = []string{
 	"syntax", "unknown-directive",
@@ -102,6 +103,7 @@ var lfFailKinds = []string{
 	"port-in-use", "startup-callback:log", "startup-callback:simcb", "restart-callback",
 	"loader-error",
 	"udp-port-in-use", // (with -quic only; "port-in-use" otherwise)
+	"setup-panic",     // (reloads only: a panic during Start is the end of the process)
 }
 
 func sha(pass string) string {
@@ -251,6 +253,8 @@ func (r *lfRig) failLines(cfg *lfCfg, fail, root string) string {
 		return "\tlog /z " + filepath.Join(none, "sub", "z.log") + " {\n\t\trotate_disable\n\t}\n"
 	case "startup-callback:simcb":
 		return "\tsimcb FAILSTARTUP\n"
+	case "setup-panic":
+		return "\tsimfail panic\n"
 	}
 	return ""
 }
@@ -297,6 +301,51 @@ func listeningInodesOnce() []string {
 			if mine[fs[9]] && !seen[fs[1]+"#"+fs[9]] {
 				seen[fs[1]+"#"+fs[9]] = true
 				out = append(out, fs[1]+"#"+fs[9]) // local address # inode
+			}
+		}
+	}
+	sort.Strings(out)
+	return out
+}
+
+// udpInodes: the UDP sockets this process holds (with -quic every server has one next to its
+// listener), read like the TCP table.
+func udpInodes() []string {
+	prev := udpInodesOnce()
+	for i := 0; i < 8; i++ {
+		cur := udpInodesOnce()
+		if strings.Join(cur, ",") == strings.Join(prev, ",") {
+			return cur
+		}
+		prev = cur
+	}
+	return prev
+}
+
+func udpInodesOnce() []string {
+	mine := map[string]bool{}
+	ents, _ := os.ReadDir("/proc/self/fd")
+	for _, e := range ents {
+		l, err := os.Readlink("/proc/self/fd/" + e.Name())
+		if err == nil && strings.HasPrefix(l, "socket:[") {
+			mine[strings.TrimSuffix(strings.TrimPrefix(l, "socket:["), "]")] = true
+		}
+	}
+	var out []string
+	seen := map[string]bool{}
+	for _, f := range []string{"/proc/self/net/udp", "/proc/self/net/udp6"} {
+		b, err := os.ReadFile(f)
+		if err != nil {
+			continue
+		}
+		for i, line := range strings.Split(string(b), "\n") {
+			fs := strings.Fields(line)
+			if i == 0 || len(fs) < 10 {
+				continue
+			}
+			if mine[fs[9]] && !seen[fs[1]+"#"+fs[9]] {
+				seen[fs[1]+"#"+fs[9]] = true
+				out = append(out, fs[1]+"#"+fs[9])
 			}
 		}
 	}
@@ -387,7 +436,10 @@ func (r *lfRig) timed(what string, f func() error) (err error, hung bool) {
 			}
 			for _, line := range strings.Split(g, "\n") {
 				if strings.HasPrefix(line, "github.com/tmpim/casket") {
-					where = strings.SplitN(line, "(", 2)[0]
+					where = line
+					if i := strings.LastIndexByte(line, '('); i > 0 {
+						where = line[:i] // (the function, without its arguments)
+					}
 					break
 				}
 			}
@@ -517,6 +569,9 @@ func runLoadfail(c *sim.Ctl) {
 		if fail == "restart-callback" && (m != "restart" && m != "sigusr1") {
 			fail = "args:header"
 		}
+		if fail == "setup-panic" && (m != "restart" && m != "sigusr1") {
+			fail = "args:header"
+		}
 		if fail == "udp-port-in-use" && !r.quic {
 			fail = "port-in-use"
 		}
@@ -577,6 +632,18 @@ func runLoadfail(c *sim.Ctl) {
 		go func() { casket.Stop(); close(done) }()
 		select {
 		case <-done:
+			// everything is stopped: waiting on the instance returns, as it would had the failed
+			// attempts never been made (what casketmain does after Start is exactly this Wait)
+			if inst := r.inst; inst != nil {
+				waited := make(chan struct{})
+				go func() { inst.Wait(); close(waited) }()
+				select {
+				case <-waited:
+					c.Probe("wait-returned-after-stop")
+				case <-time.After(8 * time.Second):
+					c.Violate("C08/wait-never-returns", "after:"+r.prevFails(), "after the history %v every instance was stopped, but Wait() on the running instance did not return within 8 s of real time: something of a discarded instance is still counted", desc)
+				}
+			}
 		case <-time.After(10 * time.Second):
 		}
 	}
@@ -657,6 +724,7 @@ func (r *lfRig) attempt(a lfAttempt) {
 	c := r.c
 	cfg := a.cfg
 	before := listeningInodes()
+	r.udpBefore = udpInodes()
 	hooksBefore := hookNames()
 	instsBefore := len(casket.Instances())
 	c.Logf("attempt %s %s fail=%q", a.method, cfg.label, cfg.fail)
@@ -761,6 +829,9 @@ func (r *lfRig) residue(a lfAttempt, before, hooksBefore []string, instsBefore i
 	after := listeningInodes()
 	if strings.Join(before, ",") != strings.Join(after, ",") {
 		c.Violate("C08/listening-sockets-left", a.method+"/"+kind, "%s (%s): listening sockets of the process changed: before=%v after=%v", a.method, kind, before, after)
+	}
+	if ua := udpInodes(); strings.Join(r.udpBefore, ",") != strings.Join(ua, ",") {
+		c.Violate("C08/udp-sockets-left", a.method+"/"+kind, "%s (%s): UDP sockets of the process changed: before=%v after=%v", a.method, kind, r.udpBefore, ua)
 	}
 	ha := hookNames()
 	if strings.Join(hooksBefore, ",") != strings.Join(ha, ",") {
